@@ -61,7 +61,7 @@ class Engine(ExprEval, NumpyModel, NumpyFuncs):
         self.spec_consts = dict(spec_consts or {})
         self.spec_funcs = dict(spec_funcs or {})
         self.spec_names = set(self.spec_funcs) | {"forall", "exists", "implies", "iff", "ite", "old", "shape", "rowsum",
-                                                  "is_none", "typeis", "lam", "isnan_", "fresh", "using", "optval", "gather_pos", "gather_src", "sort_inv", "sort_perm"}
+                                                  "is_none", "typeis", "lam", "isnan_", "fresh", "using", "have", "optval", "gather_pos", "gather_src", "sort_inv", "sort_perm"}
         self.externals = dict(externals or {})
         self.obligations: list[Obligation] = []
         self.assumptions: set[str] = set()
@@ -598,7 +598,7 @@ class Engine(ExprEval, NumpyModel, NumpyFuncs):
             return r.get(i)
         if name == "fresh":
             return fresh_scalar(args[0] if args else "int", "fresh")
-        if name == "using":
+        if name in ("using", "have"):
             return self.truth(st, args[-1])
         if name == "gather_pos":
             return args[0].gather_pos(to_z3(args[1]))
@@ -746,6 +746,15 @@ class Engine(ExprEval, NumpyModel, NumpyFuncs):
                     side.append((list(hyps), pr))
                 hyps.append(inst.conclusion)
             return side + [(hyps + h, g) for h, g in self.sequents(st, prop)]
+        if isinstance(node, ast.Call) and isinstance(node.func, ast.Name) and node.func.id == "have" and "have" not in st.env:
+            # have(P1, ..., Q): prove each Pi first (cut), then Q with them as hypotheses
+            *cuts, prop = node.args
+            out, hyps = [], []
+            for cnode in cuts:
+                for h, g in self.sequents(st, cnode):
+                    out.append((hyps + h, g))
+                hyps = hyps + [self.truth(st, self.eval(st, cnode))]
+            return out + [(hyps + h, g) for h, g in self.sequents(st, prop)]
         self.in_goal = True
         try:
             g = self.truth(st, self.eval(st, node))
